@@ -166,6 +166,11 @@ func (f *Frame) external(fn *ssa.Function, args []Val, c *ssa.CallCommon, pos to
 		return vc.freshVal("slices.Contains", boolT), false
 	}
 	if strings.HasPrefix(name, "fmt.Print") || strings.HasPrefix(name, "fmt.Fprint") {
+		// ghost output log: every print appends an opaque record (order matters)
+		vc.sc.decl("outapp", "(declare-fun outapp (Int Int) Int)")
+		tok := vc.sc.freshConst("printed", "Int")
+		cur := vc.he.get(f.cur, outLoc, "Int")
+		vc.he.set(f.cur, outLoc, "Int", app("outapp", cur, tok))
 		return vc.freshResult(f, sig.Results(), fn.Name()), false
 	}
 	// default: heap effect according to externalMod, fresh result
